@@ -17,6 +17,9 @@ CHECKS = {
     "C14": ("exploration", "runtime monitoring: with/without --emit-ir byte compare; read-back probe hook on every persisted set(); written-file-map injectivity checker; stale build-dir histories",
             "Each source is compiled with and without --emit-ir (sha compare); with it, a hook re-reads every item right after it is written and reports readable/equal/byte-fixpoint, and every (item -> path) write is logged and checked for collisions (also under ASCII case folding). Histories reuse a build dir left by another source.",
             "Table-typed items are judged by byte fixpoint, serde-typed by ==; case-insensitive file systems are modelled, not mounted; hostile glyph names are bounded to NAME_MAX-safe lengths.", "DESIGN.md §5 C14"),
+    "C05": ("exploration", "runtime monitoring: every emitted font walked by an independent container walker + full read-fonts traversal + cross-reference checker",
+            "Every font a broad workload (corpus + generator families x option sets) produces is checked from its bytes alone: directory order/offsets/padding/checksums/checkSumAdjustment, required tables, complete recursive traversal, glyph-count agreement, every glyph/lookup/feature/name/region/axis reference in range, acyclic component graph within maxp.",
+            "read-fonts is the trusted independent parser; device offsets of value records nested in class records are excluded from the generic traversal (resolved against the wrong base by read-fonts).", "DESIGN.md §5 C05"),
 }
 
 NOT_YET = {}
